@@ -310,8 +310,8 @@ class Gen:
         for i in range(r.randint(*self.nrefs)):
             w["refs"].append({"rid": i, "space": r.choice([None] + list(range(nsp))), "val": self.val()})
         for c in range(nc):
-            np_ = r.choice([0, 1, 1, 1, 2])
-            nd = r.randint(0, np_) if r.random() < 0.4 else 0
+            np_ = r.choice([0, 1, 1, 1, 2, 2, 3])
+            nd = r.randint(0, np_) if r.random() < 0.5 else 0
             der = r.random() < self.p_derived
             w["cells"].append({"cid": c, "space": r.randrange(nsp), "nparams": np_,
                                "defaults": [self.val() for _ in range(nd)],
@@ -328,7 +328,13 @@ class Gen:
         return w
 
     def key(self, c):
-        return [self.rng.randint(0, 4) for _ in range(c["nparams"])]
+        k = [self.rng.randint(0, 4) for _ in range(c["nparams"])]
+        # arguments equal to their defaults (so that the spellings "defaults" / "kwskip" can omit them)
+        d = c["defaults"]; first = c["nparams"] - len(d)
+        for j, dv in enumerate(d):
+            if isinstance(dv, int) and not isinstance(dv, bool) and self.rng.random() < 0.35:
+                k[first + j] = dv
+        return k
 
 
 def _has_back_call(e, cid):
@@ -340,7 +346,7 @@ def _has_back_call(e, cid):
         any(_has_back_call(y, cid) for x in e[1:] if isinstance(x, list) for y in x if isinstance(y, list))
 
 
-SPELLINGS = ["call", "call", "kw", "getitem", "defaults", "mixed", "value"]
+SPELLINGS = ["call", "call", "kw", "getitem", "defaults", "mixed", "value", "kwskip"]
 
 
 def gen_ops(g, w, n, weights):
@@ -397,6 +403,34 @@ def gen_ops(g, w, n, weights):
         elif k == "setref" and w["refs"]:
             rr = r.choice(w["refs"])
             ops.append(["setref", rr["rid"], g.val()])
+        elif k == "scn_unc":
+            # directed scenario (seeded/C09_r3): a cached element computed through an UNCACHED cells; the uncached
+            # cells is redefined, the element recomputed, the uncached cells redefined AGAIN: the second edit must
+            # reach the recomputed element (the dependency through the uncached cells is recorded at every computation)
+            cands = [x for x in cur.values() if not x.get("derived")]
+            if len(cands) < 2:
+                continue
+            u = max(cands, key=lambda x: x["cid"])
+            ds = [x for x in cands if x["cid"] < u["cid"] and cached_state[x["cid"]]]
+            if not ds:
+                continue
+            d = r.choice(ds)
+            if cached_state[u["cid"]]:
+                cached_state[u["cid"]] = False
+                nu = dict(u); nu["cached"] = False; cur[u["cid"]] = nu; u = nu
+                ops.append(["setcached", u["cid"], False])
+            ku, kd = g.key(u), g.key(d)
+            nd = dict(d)
+            nd["body"] = [["assign", ["bin", "add", ["call", u["cid"], [["const", v] for v in ku]], ["const", r.randint(1, 9)]]]]
+            cur[d["cid"]] = nd
+            ops.append(["setf", d["cid"], nd, "direct"])
+            ops.append(["eval", d["cid"], kd, r.choice(SPELLINGS)])
+            for _ in range(r.randint(2, 3)):
+                nu = dict(cur[u["cid"]])
+                nu["body"] = [["assign", ["const", r.randint(10, 99)]]]
+                cur[u["cid"]] = nu
+                ops.append(["setf", u["cid"], nu, "direct"])
+                ops.append(["eval", d["cid"], kd, r.choice(SPELLINGS)])
         elif k == "scn_recalc":
             # directed scenario (seeded/C06_r2): with the recalculation option on, an assignment whose immediate
             # recomputation of a dependent FAILS; the assigned value must still be an input afterwards (survive
